@@ -154,10 +154,35 @@ def run_case(case):
     L = params[0] - 40.0 * max(params[1], 1e-3) if fam == "gauss" else (-5.0 if fam != "uniform" else params[0] - 10.0)
     discrete = fam in ("poisson", "flory_schulz", "schulz_zimm")
 
+    # a second object of the SAME family with other (valid) parameters is asked every question first: each distribution object is one law of its
+    # own, nothing it answers may depend on what another object was asked (a table or memo keyed by the mass alone would)
+    shadow = None
+    try:
+        sp = {"gauss": lambda p: (p[0] * 1.3 + 1, p[1] * 0.7 + 0.5), "uniform": lambda p: (int(p[0]) + 7, int(p[1]) + 29), "log_normal": lambda p: (p[0] * 1.6, min(p[1] * 1.1, 3.0)),
+              "poisson": lambda p: (p[0] * 1.5 + 1,), "flory_schulz": lambda p: (min(p[0] * 0.6, 0.5),), "schulz_zimm": lambda p: (p[0] * 1.5, p[1] * 1.2)}[fam](params)
+        shadow = get_distribution(text_of(fam, sp, 1))
+        cnt["shadow_objects"] += 1
+    except Exception:
+        shadow = None
+
+    _k = [0]
+
+    def ask_shadow(arg):
+        _k[0] += 1
+        if shadow is not None and _k[0] % 4 == 0:  # every fourth question is enough to plant stale answers
+            try:
+                with time_limit(5):
+                    shadow.prob_mw(arg)
+                cnt["shadow_questions"] += 1
+            except BaseException:
+                pass
+
     def P(a, b):
+        ask_shadow(interval(a, b))
         return float(D.prob_mw(interval(a, b)))
 
     def dens(x):
+        ask_shadow(x)
         return float(D.prob_mw(x))
 
     # ---- density: non-negative, finite; normalisation
